@@ -116,6 +116,7 @@ class BatchResponseToJson:
 
 # ------------------------------------------------------------------------------------------------ construction / parsing
 from spec.jsonrpc import valid_request_obj
+from spec.server import request_ok
 
 
 @contract('pjrpc.common.v20:BatchRequest.__init__', props=['C06', 'C02'])
@@ -152,4 +153,19 @@ class BatchRequestFromJson:
         return isinstance(data, list) and len(data) > 0 and all(valid_request_obj(x) for x in data)
 
     def ensures_elements(cls, data, result):
-        return result._strict == True and len(result._requests) == len(data)
+        return (result._strict == True and len(result._requests) == len(data)
+                and all(request_ok(r) for r in result._requests))
+
+
+@contract('pjrpc.common.v20:BatchResponse.__init__', props=['C06', 'C08', 'C01'])
+class BatchResponseInit:
+    types = {'responses': 'seq[=pjrpc.common.v20:Response]', 'error': 'any', 'strict': 'bool'}
+    raises_only = ('pjrpc.common.exceptions:IdentityError',)
+    modifies = ('self._strict', 'self._responses', 'self._ids', 'self._error', 'self._related')
+
+    def returns_iff(self, responses, error, strict):
+        return not (strict and dup_in(set(), [r._id for r in responses]))
+
+    def ensures_fields(self, responses, error, strict, result):
+        return (same(self._strict, strict) and same(self._error, error) and self._related is None
+                and isinstance(self._responses, list) and seq_same(self._responses, responses))
